@@ -94,11 +94,16 @@ def scheduleTasks (tasks fn : Nat) : List Nat → Except FwCrash (List Event)
 def mframeSchedule (tasks fn : Nat) : Except FwCrash (List Event) :=
   scheduleTasks tasks fn (List.range 32)
 
+/-- Hardware constant (modelled, not verified): a task written to the DSP API page during
+    TDMA frame `N` is executed by the Calypso DSP in frame `N + 1` (double-buffered pages).
+    This is the latency that `SCHEDULE_LATENCY` ("how long do we need to tell the DSP in
+    advance what we want to do?") has to match. -/
+def dspLatency : Nat := 1
+
 /-- The TDMA frame on the air of the first burst of a set scheduled at tick `fn`:
-    the set's first command runs `frame_offset` ticks later and the DSP executes a
-    command `SCHEDULE_LATENCY` frames after it was given ("how long do we need to tell
-    the DSP in advance what we want to do?"). -/
-def airFrame (fn : Nat) : Nat := fn + frameOffset + FwMframe.SCHEDULE_LATENCY
+    the set's first command runs `frame_offset` ticks later and the DSP executes it
+    `dspLatency` frames after that. -/
+def airFrame (fn : Nat) : Nat := fn + frameOffset + dspLatency
 
 /-- table of a task by enumerator (`none`: no table / NULL) -/
 def tableOf (t : FwMframe.Task) : Option (List FwMframe.Item) :=
